@@ -4,7 +4,8 @@ package main
 
 // Driver "vmrun" (C15): the real Vm.Run on valid, truncated and corrupted bytecode, from prepared
 // states (flag combinations, position, input), with a resource that answers every code fetch with
-// empty code.  Observed: error / panic, remaining code, flags, position.
+// empty code and has one entry function ("lds" -> "x").  A case may run other code in an EARLIER Run
+// of the same Vm (state and cache carried over).  Observed: error / panic, remaining code, flags, position.
 
 import (
 	"context"
@@ -26,6 +27,7 @@ type vrState struct {
 	input []byte
 	noIn  bool
 	path  []string
+	pre   []byte // code of an earlier Run of the same Vm, state and cache; nil = none
 }
 
 func vmRunOnce(s vrState, code []byte) (stat string, rest []byte, flags []byte, path []string) {
@@ -48,9 +50,15 @@ func vmRunOnce(s vrState, code []byte) (stat string, rest []byte, flags []byte, 
 		}
 		return []byte{}, nil
 	})
+	rs.AddLocalFunc("lds", func(ctx context.Context, sym string, input []byte) (resource.Result, error) {
+		return resource.Result{Content: "x"}, nil
+	})
 	stat = "OSPanic"
 	panicked, _ := hx.Recover(func() {
 		v := vm.NewVm(st, rs, ca, nil)
+		if len(s.pre) > 0 {
+			v.Run(context.Background(), append([]byte{}, s.pre...))
+		}
 		b, err := v.Run(context.Background(), append([]byte{}, code...))
 		rest = b
 		switch {
@@ -74,7 +82,7 @@ func vrTerm(s vrState, code []byte) (string, string) {
 	if !s.noIn {
 		in = "(Some " + hx.B(s.input) + ")"
 	}
-	return fmt.Sprintf("(mkVr %s %s %s %s %s %s %s %s)", hx.NList(s.flags), in, hx.SList(s.path), hx.B(code), stat, hx.B(rest), hx.B(flags), hx.SList(path)), stat
+	return fmt.Sprintf("(mkVr %s %s %s %s %s %s %s %s %s)", hx.NList(s.flags), in, hx.SList(s.path), hx.B(code), hx.B(s.pre), stat, hx.B(rest), hx.B(flags), hx.SList(path)), stat
 }
 
 func genVrState(r *rand.Rand) vrState {
@@ -120,12 +128,38 @@ func genVrInstr(r *rand.Rand) Instr {
 	return i
 }
 
+// opcode and symbol of a LOAD, without its size argument
+func loadHead(sym string) []byte {
+	return append([]byte{0, byte(vm.LOAD), byte(len(sym))}, sym...)
+}
+
+// malformed size arguments of a LOAD: nothing; a width byte 1..4 with too few bytes; a width byte 5..255 as
+// the last byte; the same followed by more bytes (junk, a complete HALT, enough bytes for that width)
+func loadTails(r *rand.Rand) [][]byte {
+	w := byte(5)
+	short := byte(2)
+	if r != nil {
+		w = byte(5 + r.Intn(251))
+		short = byte(1 + r.Intn(4))
+	}
+	full := append([]byte{w}, make([]byte, int(w))...)
+	return [][]byte{
+		{},
+		append([]byte{short}, make([]byte, int(short)-1)...),
+		{w},
+		{w, 0, byte(vm.HALT)},
+		{w, 1, 2, 3},
+		full,
+		append(append([]byte{}, full...), 0, byte(vm.HALT)),
+	}
+}
+
 func runVmRun(o opts) error {
 	w := &hx.Writer{Dir: o.out, Prop: o.prop, Imports: "Bytes Errors Consts Codec CacheModel StateModel NavModel RenderModel VmModel EngineModel CorrBase EngineCorr VmRunCorr",
 		CaseType: "vrcase", Mism: "vmrun_mismatches", Viol: "vmrun_violations", PerShard: 100}
 	add := func(kind string, s vrState, code []byte) {
 		t, stat := vrTerm(s, code)
-		w.Add(hx.Case{Term: t, Kind: kind, Trivial: len(code) < 2, Desc: map[string]interface{}{"flags": s.flags, "input": string(s.input), "path": s.path, "code": fmt.Sprintf("%x", code), "stat": stat}})
+		w.Add(hx.Case{Term: t, Kind: kind, Trivial: len(code) < 2, Desc: map[string]interface{}{"flags": s.flags, "input": string(s.input), "path": s.path, "code": fmt.Sprintf("%x", code), "pre": fmt.Sprintf("%x", s.pre), "stat": stat}})
 		w.Count("stat:" + stat)
 	}
 	// corpus: a matched "previous" on the first page leaves INMATCH and READIN set; a truncated INCMP after it
@@ -141,6 +175,42 @@ func runVmRun(o opts) error {
 		append(encNewLine(nil, Instr{Op: vm.INCMP, S1: []byte("_catch"), S2: []byte("2")}), 0, 2, 1, 3))
 	add("corpus:glue-after-move", vrState{input: []byte("2"), path: []string{"root"}},
 		append(encNewLine(nil, Instr{Op: vm.MOVE, S1: []byte("_catch")}), 0, 2, 1, 3))
+	// corpus: LOAD of a symbol that is ALREADY cached, with a malformed size argument (missing, cut short,
+	// width byte 5..255) at the end of the code and followed by more bytes; the first LOAD in the same
+	// Run or in an earlier Run of the same session.  Control: the same tails on a symbol that is not cached.
+	plain := vrState{input: []byte("1"), path: []string{"root"}}
+	for _, tail := range loadTails(nil) {
+		for _, sym := range []string{"lds", "ldx"} {
+			first := encNewLine(nil, Instr{Op: vm.LOAD, S1: []byte("lds"), N: 1})
+			bad := append(loadHead(sym), tail...)
+			add("corpus:load-cached-malformed-size", plain, append(append([]byte{}, first...), bad...))
+			early := plain
+			early.pre = vm.NewLine(append([]byte{}, first...), vm.HALT, nil, nil, nil)
+			add("corpus:load-cached-earlier-run", early, bad)
+		}
+	}
+	for c := 0; c < (o.n+1)/2; c++ {
+		r := hx.Rng(o.seed, "vmrun-load", c)
+		first := encNewLine(nil, Instr{Op: vm.LOAD, S1: []byte("lds"), N: uint32(pick(r, []int{0, 1, 2, 40}))})
+		var mid []byte
+		for k := r.Intn(3); k > 0; k-- {
+			mid = encNewLine(mid, genVrInstr(r))
+		}
+		sym := pick(r, []string{"lds", "lds", "lds", "ldx"})
+		for _, tail := range loadTails(r) {
+			bad := append(loadHead(sym), tail...)
+			s := genVrState(r)
+			if r.Intn(2) == 0 {
+				add("load-cached:same-run", s, append(append(append([]byte{}, first...), mid...), bad...))
+			} else {
+				s.pre = vm.NewLine(append([]byte{}, first...), vm.HALT, nil, nil, nil)
+				add("load-cached:earlier-run", s, append(append([]byte{}, mid...), bad...))
+			}
+		}
+		// the well-formed second LOAD, for comparison
+		s := genVrState(r)
+		add("load-cached:valid", s, encNewLine(append(append([]byte{}, first...), mid...), Instr{Op: vm.LOAD, S1: []byte(sym), N: 1}))
+	}
 	for c := 0; c < o.n; c++ {
 		r := hx.Rng(o.seed, "vmrun", c)
 		n := 1 + r.Intn(5)
